@@ -212,107 +212,128 @@ func (e *Engine) parserDeclaresResult() *FuncResult {
 	ctx.fnKey = "c05-parsers-declared-names"
 	res := &FuncResult{Key: "c05-parsers-declared-names", Ctx: ctx}
 	for _, ps := range c05Parsers {
-		// functions of the package, and the static call graph among them
-		fns := map[string]*ssa.Function{}
-		for k, fn := range e.fnByKey {
-			if strings.HasPrefix(k, ps.pkg+".") && len(fn.Blocks) > 0 {
-				fns[k] = fn
-			}
-		}
-		callees := map[string][]string{}
-		for k, fn := range fns {
-			for _, b := range fn.Blocks {
-				for _, in := range b.Instrs {
-					if c, ok := in.(*ssa.Call); ok {
-						if sc := c.Call.StaticCallee(); sc != nil {
-							if _, in := fns[funcKey(sc)]; in {
-								callees[k] = append(callees[k], funcKey(sc))
-							}
-						}
-					}
-				}
-			}
-		}
-		reach := map[string]bool{}
+		seeds := map[string]bool{}
 		for _, d := range ps.declare {
-			if fns[d] != nil {
-				reach[d] = true
+			seeds[d] = true
+			ctx.addOblig("flow", ps.pkg+":declaring-function-exists:"+d, BoolLit(e.fnByKey[d] != nil), "internal/"+ps.pkg+"/generator.go")
+		}
+		e.errorPropagationObligs(ctx, []string{ps.pkg}, seeds)
+	}
+	res.Obligs = ctx.obligs
+	return res
+}
+
+// errorPropagationObligs: within the given packages, for every function from which one of the seed
+// functions is reachable through static calls, the error result of every call to such a function is
+// propagated (see errorPropagates): one obligation flow:<pkg>:<function>:error-of-<callee>-is-propagated
+// per call. Returns the number of obligations generated.
+func (e *Engine) errorPropagationObligs(ctx *Ctx, pkgs []string, seeds map[string]bool) int {
+	inPkgs := func(k string) (string, bool) {
+		for _, p := range pkgs {
+			if strings.HasPrefix(k, p+".") {
+				return p, true
 			}
-			ctx.addOblig("flow", ps.pkg+":declaring-function-exists:"+d, BoolLit(fns[d] != nil), "internal/"+ps.pkg+"/generator.go")
 		}
-		for changed := true; changed; {
-			changed = false
-			for k := range fns {
-				if reach[k] {
-					continue
-				}
-				for _, c := range callees[k] {
-					if reach[c] {
-						reach[k], changed = true, true
-						break
-					}
-				}
-			}
+		return "", false
+	}
+	fns := map[string]*ssa.Function{}
+	for k, fn := range e.fnByKey {
+		if _, ok := inPkgs(k); ok && len(fn.Blocks) > 0 {
+			fns[k] = fn
 		}
-		var keys []string
-		for k := range fns {
-			keys = append(keys, k)
-		}
-		sort.Strings(keys)
-		for _, k := range keys {
-			fn := fns[k]
-			ord := map[string]int{}
-			for _, b := range fn.Blocks {
-				for _, in := range b.Instrs {
-					c, ok := in.(*ssa.Call)
-					if !ok {
-						continue
-					}
-					sc := c.Call.StaticCallee()
-					if sc == nil || !reach[funcKey(sc)] || !returnsError(sc) {
-						continue
-					}
-					short := funcKey(sc)[strings.LastIndex(funcKey(sc), ".")+1:]
-					ord[short]++
-					name := ps.pkg + ":" + k[len(ps.pkg)+1:] + ":error-of-" + short
-					if ord[short] > 1 {
-						name += "#" + itoa(ord[short])
-					}
-					name += "-is-propagated"
-					// the error value: the last component of the result tuple (or the result itself)
-					var ev ssa.Value
-					nres := sc.Signature.Results().Len()
-					if nres == 1 {
-						ev = c
-					} else {
-						for _, r := range *c.Referrers() {
-							if ex, isEx := r.(*ssa.Extract); isEx && ex.Index == nres-1 {
-								ev = ex
-							}
+	}
+	callees := map[string][]string{}
+	for k, fn := range fns {
+		for _, b := range fn.Blocks {
+			for _, in := range b.Instrs {
+				if c, ok := in.(*ssa.Call); ok {
+					if sc := c.Call.StaticCallee(); sc != nil {
+						if _, in := fns[funcKey(sc)]; in {
+							callees[k] = append(callees[k], funcKey(sc))
 						}
-					}
-					ok2, why := false, "the error result is discarded"
-					if ev != nil {
-						ok2, why = e.errorPropagates(fn, c, ev)
-					} else {
-						// the whole tuple returned as is (return g.walkRef(schema))
-						for _, r := range *c.Referrers() {
-							if _, isRet := r.(*ssa.Return); isRet {
-								ok2 = true
-							}
-						}
-					}
-					pp := e.prog.Fset.Position(c.Pos())
-					o := ctx.addOblig("flow", name, BoolLit(ok2), fmt.Sprintf("%s:%d", shortPath(pp.Filename), pp.Line))
-					if !ok2 {
-						o.Why = why
 					}
 				}
 			}
 		}
 	}
-	res.Obligs = ctx.obligs
-	return res
+	reach := map[string]bool{}
+	for d := range seeds {
+		if fns[d] != nil {
+			reach[d] = true
+		}
+	}
+	for changed := true; changed; {
+		changed = false
+		for k := range fns {
+			if reach[k] {
+				continue
+			}
+			for _, c := range callees[k] {
+				if reach[c] {
+					reach[k], changed = true, true
+					break
+				}
+			}
+		}
+	}
+	var keys []string
+	for k := range fns {
+		keys = append(keys, k)
+	}
+	sort.Strings(keys)
+	n := 0
+	for _, k := range keys {
+		fn := fns[k]
+		pkg, _ := inPkgs(k)
+		ord := map[string]int{}
+		for _, b := range fn.Blocks {
+			for _, in := range b.Instrs {
+				c, ok := in.(*ssa.Call)
+				if !ok {
+					continue
+				}
+				sc := c.Call.StaticCallee()
+				if sc == nil || !reach[funcKey(sc)] || !returnsError(sc) {
+					continue
+				}
+				short := funcKey(sc)[strings.LastIndex(funcKey(sc), ".")+1:]
+				ord[short]++
+				name := pkg + ":" + k[len(pkg)+1:] + ":error-of-" + short
+				if ord[short] > 1 {
+					name += "#" + itoa(ord[short])
+				}
+				name += "-is-propagated"
+				var ev ssa.Value
+				nres := sc.Signature.Results().Len()
+				if nres == 1 {
+					ev = c
+				} else {
+					for _, r := range *c.Referrers() {
+						if ex, isEx := r.(*ssa.Extract); isEx && ex.Index == nres-1 {
+							ev = ex
+						}
+					}
+				}
+				ok2, why := false, "the error result is discarded"
+				if ev != nil {
+					ok2, why = e.errorPropagates(fn, c, ev)
+				} else {
+					for _, r := range *c.Referrers() {
+						if _, isRet := r.(*ssa.Return); isRet {
+							ok2 = true
+						}
+					}
+				}
+				pp := e.prog.Fset.Position(c.Pos())
+				o := ctx.addOblig("flow", name, BoolLit(ok2), fmt.Sprintf("%s:%d", shortPath(pp.Filename), pp.Line))
+				if !ok2 {
+					o.Why = why
+				}
+				n++
+			}
+		}
+	}
+	return n
 }
 
 // ---- every reference a parser constructs names a declared object (or another package) ----------------
@@ -680,4 +701,19 @@ func (e *Engine) declaredGetsObject(fn *ssa.Function) bool {
 		}
 	}
 	return true
+}
+
+// C20 - a rejected document stays rejected: the three strict loaders report an unknown key / an empty action
+// as an error; every function of the yaml and codegen packages between such a loader and the pipeline has to
+// hand that error on (same notion of propagation as for the parsers above). A deferred Close() that
+// overwrites the named error result, an error that is only logged, a `continue` on failure - all of them turn
+// a rejected configuration file into a silently ignored one.
+func (e *Engine) strictErrorsPropagateResult(loaders map[string]bool) *FuncResult {
+	ctx := newCtx(e, e.anyFunction())
+	ctx.fnKey = "c20-errors-propagate"
+	res := &FuncResult{Key: "c20-errors-propagate", Ctx: ctx}
+	n := e.errorPropagationObligs(ctx, []string{"yaml", "codegen"}, loaders)
+	ctx.addOblig("flow", "callers-of-the-strict-loaders-enumerated", BoolLit(n >= 3), "internal/yaml, internal/codegen")
+	res.Obligs = ctx.obligs
+	return res
 }
